@@ -178,6 +178,11 @@ def historyE (log : List Version) : Res (Option Store) := log.foldl mergeStepE (
 def historyL (batches : List (List Version)) : Option Store :=
   batches.foldl (fun st b => biMergeL st (b.map fun v => Bi v.ts v.stamp)) none
 
+/-- the history of batches as the code runs it: a `bi_merge` call that sees two or more frames, all of them empty, raises
+    `ValueError` (`biMergeLE`: `pd.concat([])`, line 288), and the exception ends the history -/
+def historyLE (batches : List (List Version)) : Res (Option Store) :=
+  batches.foldl (fun acc b => acc.bind fun st => biMergeLE st (b.map fun v => Bi v.ts v.stamp)) (.ok none)
+
 
 /-! ### widened model (g4): publications as stamped rows, `Bi` with `'shift'` / day bumps, string selectors -/
 
